@@ -58,7 +58,7 @@ def gen_cases(rng, tier):
   # table form whose data points are the rows themselves: the row is on a definite side, judged strictly
   for i in range(28 if tier == "quick" else 196):
     v = spec.EXACT_BOUNDARY_VARIANTS[i % len(spec.EXACT_BOUNDARY_VARIANTS)]
-    route = ["potable", "cli", "api_legacy", "api_class"][(i + i // 7) % 4]
+    route = ["potable", "cli", "api_legacy", "api_class"][(i % 7 + i // 7) % 4]   # every variant meets every route (7 = -1 mod 4: i + i//7 would not)
     model, k = spec.exact_boundary_model(rng, "LAMMPS", v, shared=route.startswith("api"))
     cases.append({"route": route, "model": model, "style": rng.randrange(1 << 30), "exact_boundary": v, "root_on_grid": k})
   # plain Python callables whose first rows are whole numbers returned as int (a capped core: 100 below r_c), floats later
